@@ -588,10 +588,13 @@ def translate(ctx):
 #  correspondence / oracle
 # =====================================================================================
 RULE = ("geometry: atoms on a 2^-10 nm grid built as bonded chains (kinds random, near_collinear (sin < 1e-3), near_planar, "
-        "split = wrapped into the cell so that bonds cross faces) in no cell / cubic / orthorhombic / triclinic cells, "
+        "split = wrapped into the cell so that bonds cross faces) in no cell / cubic / orthorhombic / triclinic cells, fixed or "
+        "changing from frame to frame (size, shape, orthorhombic/triclinic mixes), "
         "collinear = exactly collinear consecutive bonds; 1..40 index tuples incl. reversed tuples and a mirrored frame, every (opt, periodic) combination; a tuple-frame "
         "is non-trivial when the exact value is not degenerate; topologies: 1..4 chains x 1..12 residues of the 20 amino "
-        "acids with real atom names, water/ligand residues in between, random atom deletions, duplicated atom names; "
+        "acids with real atom names, also under residue names outside mdtraj's amino-acid table (force-field variants HID/CYX/ASH..., "
+        "D-amino acids, modified residues, lower case), caps ACE/NME, water/ion/ligand residues in between (one ligand with N/CA/C), "
+        "random atom deletions, duplicated atom names; "
         "distinct by hash of (recipe, op)")
 TRUSTED = ["harness/impl/geom_impl.py (builds Trajectory/Topology objects, calls the public API, returns raw arrays)",
            "harness/props/C07.py: translators (kernel statements by anchored patterns + expression parser; Python ast), "
@@ -661,11 +664,22 @@ def gen_geom(gen):
     """deterministic integer coordinates (F,n,3), integer box or None, angle triplets, dihedral quartets."""
     rs = np.random.RandomState(gen["seed"])
     kind, cell, n, F, m = gen["kind"], gen["cell"], gen["n"], gen["F"], gen["m"]
-    box = make_box(rs, cell)
-    lmin = min(box[0][0], box[1][1], box[2][2]) if box else 3 * UNIT
+    if cell == "none":
+        boxes = None
+    elif gen.get("varcell"):
+        # the cell changes from frame to frame in size and shape (orthorhombic and triclinic frames may be mixed)
+        kinds = [cell] + [str(rs.choice(["ortho", "tric", "tric"] if cell != "cubic" else ["cubic", "ortho", "tric"])) for _ in range(F - 1)]
+        if rs.rand() < 0.5:
+            kinds = kinds[::-1]
+        boxes = [make_box(rs, k) for k in kinds]
+    else:
+        b0 = make_box(rs, cell)
+        boxes = [b0] * F
+    lmin = min(min(b[0][0], b[1][1], b[2][2]) for b in boxes) if boxes else 3 * UNIT
     frames = []
     for f in range(F):
-        if f == 1 and gen.get("mirror") and cell != "tric":
+        box = boxes[f] if boxes else None
+        if f == 1 and gen.get("mirror") and cell != "tric" and not gen.get("varcell"):
             X = frames[0].copy()
             X[:, 0] = -X[:, 0]
             frames.append(X)
@@ -719,7 +733,7 @@ def gen_geom(gen):
         for _ in range(max(1, m // 2)):
             tri.append([int(v) for v in rs.choice(n, 3, replace=False)])
             quad.append([int(v) for v in rs.choice(n, 4, replace=False)])
-    return X, box, tri[:40], quad[:40]
+    return X, boxes, tri[:40], quad[:40]
 
 
 def build_geom_cases(ctx):
@@ -734,6 +748,9 @@ def build_geom_cases(ctx):
                     continue
                 gen = {"kind": kind, "cell": cell, "n": rng.randint(4, 14), "F": rng.randint(1, 3), "m": rng.randint(1, 8),
                        "mirror": rng.random() < 0.6, "seed": rng.randrange(1, 2 ** 31 - 1)}
+                if cell != "none" and (kind == "split" or rng.random() < 0.4):
+                    gen["varcell"] = True
+                    gen["F"] = rng.randint(2, 4)
                 ops = [{"op": o, "opt": opt, "periodic": per} for o in ("angles", "dihedrals") for opt in (True, False)
                        for per in (True, False)]
                 cases.append({"gen": gen, "ops": ops})
@@ -766,7 +783,7 @@ def run_geom(ctx, cases):
         data.append((X, box, tri, quad))
         inp["g%d_xyz" % k] = (X.astype(np.float64) / UNIT).astype(np.float32)
         if box is not None:
-            inp["g%d_box" % k] = np.repeat((np.array(box, dtype=np.float64) / UNIT).astype(np.float32)[None], X.shape[0], axis=0)
+            inp["g%d_box" % k] = (np.array(box, dtype=np.float64) / UNIT).astype(np.float32)      # (F, 3, 3): one cell per frame
     # one impl case per (case, op kind): the index array differs between angles and dihedrals
     entries = []
     for k, c in enumerate(cases):
@@ -797,11 +814,11 @@ def run_geom(ctx, cases):
     for e, (k, kind, idx, ops) in enumerate(entries):
         X, box, tri, quad = data[k]
         gen = cases[k]["gen"]
-        lmax = max(max(abs(v) for v in row) for row in box) / UNIT if box else 0.0
+        lmax = max(max(max(abs(v) for v in row) for row in bx) for bx in box) / UNIT if box else 0.0
         for j, op in enumerate(ops):
             key = "g%d_o%d" % (1000 + e, j)
             rec = {"gen": gen, "ops": [op]}
-            bucket = "%s/%s/%s/opt=%s,periodic=%s" % (kind, gen["kind"], gen["cell"], op["opt"], op["periodic"])
+            bucket = "%s/%s/%s%s/opt=%s,periodic=%s" % (kind, gen["kind"], gen["cell"], "+varying" if gen.get("varcell") else "", op["opt"], op["periodic"])
             if key in errors:
                 ctx.count(rec, bucket=bucket)
                 ctx.fail("compute_%s raised on valid input: %s" % (kind, errors[key].split(":")[0]), rec, observed=errors[key],
@@ -817,7 +834,7 @@ def run_geom(ctx, cases):
                     got = float(val[f][ti])
                     if kind == "dihedrals":
                         prs = [(tup[0], tup[1]), (tup[1], tup[2]), (tup[2], tup[3])]
-                        bv = bond_vectors(X[f], box, prs, periodic)
+                        bv = bond_vectors(X[f], box[f] if box else None, prs, periodic)
                         if bv is None:
                             excl["ambiguous_minimum_image"] = excl.get("ambiguous_minimum_image", 0) + 1
                             continue
@@ -869,7 +886,7 @@ def run_geom(ctx, cases):
                             break
                     else:
                         prs = [(tup[1], tup[0]), (tup[1], tup[2])]
-                        bv = bond_vectors(X[f], box, prs, periodic)
+                        bv = bond_vectors(X[f], box[f] if box else None, prs, periodic)
                         if bv is None:
                             excl["ambiguous_minimum_image"] = excl.get("ambiguous_minimum_image", 0) + 1
                             continue
@@ -928,7 +945,14 @@ SIDE = {"ALA": ["CB"], "ARG": ["CB", "CG", "CD", "NE", "CZ", "NH1", "NH2"], "ASN
         "SER": ["CB", "OG"], "THR": ["CB", "OG1", "CG2"],
         "TRP": ["CB", "CG", "CD1", "CD2", "NE1", "CE2", "CE3", "CZ2", "CZ3", "CH2"],
         "TYR": ["CB", "CG", "CD1", "CD2", "CE1", "CE2", "CZ", "OH"], "VAL": ["CB", "CG1", "CG2"]}
-OTHER = {"HOH": ["O", "H1", "H2"], "LIG": ["C1", "C2", "N1", "O1"], "NA": ["NA"]}
+OTHER = {"HOH": ["O", "H1", "H2"], "LIG": ["C1", "C2", "N1", "O1"], "NA": ["NA"],
+         # caps and a ligand that happens to contain backbone-like atom names
+         "ACE": ["CH3", "C", "O"], "NME": ["N", "CH3"], "NHE": ["N"], "PEP": ["N", "CA", "C", "O", "CB", "CG"]}
+# the atom patterns are name-independent (dihedral.py never looks at residue names): force-field variants,
+# D-amino acids, modified residues and lower-case names must give the same index lists
+ALIAS = {"HIS": ["HID", "HIE", "HIP", "HSD", "HSE", "HSP"], "CYS": ["CYX", "CYM"], "ASP": ["ASH"], "GLU": ["GLH"],
+         "LYS": ["LYN"], "MET": ["MSE"], "ALA": ["DAL"], "LEU": ["DLE"], "VAL": ["DVA"], "SER": ["DSN", "SEP"],
+         "THR": ["TPO"], "TYR": ["PTR"], "PRO": ["HYP"], "ARG": ["DAR"], "GLN": ["DGN"], "PHE": ["DPN"]}
 
 
 def gen_topology(gen):
@@ -943,6 +967,11 @@ def gen_topology(gen):
             else:
                 name = sorted(SIDE)[rs.randint(len(SIDE))]
                 atoms = BACKBONE + SIDE[name] + (["H", "HA"] if rs.rand() < 0.3 else [])
+                u = rs.rand()
+                if u < gen.get("p_alias", 0.3) and name in ALIAS:
+                    name = ALIAS[name][rs.randint(len(ALIAS[name]))]
+                elif u < gen.get("p_alias", 0.3) + 0.05:
+                    name = name.lower()
             atoms = [a for a in atoms if rs.rand() >= gen.get("p_del", 0.08)]
             if atoms and rs.rand() < gen.get("p_dup", 0.04):
                 atoms.append(atoms[rs.randint(len(atoms))])
